@@ -113,7 +113,7 @@ class Case(object):
                 'features': sorted(self.features), 'n_bytes': len(self.bytes) if self.bytes else None}
 
 
-def case_from_raws(meta, ids, columns=None, subsets=None, extra_widths=None):
+def case_from_raws(meta, ids, columns=None, subsets=None, extra_widths=None, tables=None):
     """Build a case from explicit raw values: `columns` (compressed: one list per field,
     one entry per subset) or `subsets` (uncompressed: one list of raws per subset).
     Constant entries (operator place holders) are not part of the lists."""
@@ -121,7 +121,7 @@ def case_from_raws(meta, ids, columns=None, subsets=None, extra_widths=None):
     c.meta = dict(meta)
     c.ids = list(ids)
     c.extra_widths = extra_widths
-    c.tables = tables_of_meta(c.meta)
+    c.tables = tables if tables is not None else tables_of_meta(c.meta)     # tables: a private tables root (vlib.privtables)
     c.tree = rtree.parse(c.ids, c.tables)
     if c.meta['is_compressed']:
         src = GivenSource([list(col) for col in columns])
